@@ -464,3 +464,128 @@ def source(rng):
     else:
         net = gen_network(rng, rng.randint(3, 5), rng.randint(1, 3), 8, srsw=True, allow_close=False)
     return to_source(net)
+
+
+# ---------------------------------------------------------------------------
+# structured networks: common concurrency idioms with random sizes/capacities
+
+
+def gen_pool(rng):
+    """workers share a jobs channel; some workers launch a helper that feeds it; main feeds and collects"""
+    k = rng.randint(2, 4)
+    chans = [rng.choice([1, 2, 2, 3]), rng.choice([1, 2, 3])]      # jobs, done
+    JOBS, DONE = 0, 1
+    fibers = [[]]
+    helpers = []
+    per_worker = []
+    for w in range(1, k + 1):
+        fibers.append([])
+    total_jobs_needed = 0
+    helper_jobs = 0
+    for w in range(1, k + 1):
+        ops = []
+        n = rng.randint(1, 2)
+        if rng.random() < 0.5:
+            h = len(fibers)
+            fibers.append([('send', JOBS, h * 1000 + 1)])
+            helpers.append(h)
+            ops.append(('launch', h))
+            helper_jobs += 1
+        for j in range(n):
+            ops.append(('recv', JOBS))
+            ops.append(('send', DONE, w * 1000 + j + 1))
+        total_jobs_needed += n
+        per_worker.append(n)
+        fibers[w] = ops
+    main = []
+    order = list(range(1, k + 1))
+    rng.shuffle(order)
+    for w in order:
+        main.append(('launch', w))
+    to_send = max(0, total_jobs_needed - helper_jobs + rng.choice([0, 0, 0, -1, 1]))
+    to_recv = total_jobs_needed if rng.random() < 0.8 else max(0, total_jobs_needed - 1)
+    seq = ['s'] * to_send + ['r'] * to_recv
+    # receives tend to come first so main sleeps on done while workers sleep on jobs
+    rng.shuffle(seq)
+    if rng.random() < 0.5:
+        seq.sort(key=lambda x: 0 if x == 'r' and rng.random() < 0.5 else 1)
+    c = 0
+    for x in seq:
+        if x == 's':
+            c += 1
+            main.append(('send', JOBS, c))
+        else:
+            main.append(('recv', DONE))
+    fibers[0] = main
+    return {'chans': chans, 'fibers': fibers, 'srsw': False}
+
+
+def gen_pipeline(rng):
+    """stage i receives from c[i-1] and sends to c[i]; main feeds c[0] and drains c[K]"""
+    k = rng.randint(1, 4)
+    n = rng.randint(1, 4)
+    chans = [rng.choice([0, 1, 2]) for _ in range(k + 1)]
+    fibers = [[]]
+    for s in range(1, k + 1):
+        ops = []
+        for j in range(n):
+            ops.append(('recv', s - 1))
+            ops.append(('send', s, s * 1000 + j + 1))
+        fibers.append(ops)
+    main = []
+    stages = list(range(1, k + 1))
+    if rng.random() < 0.5:
+        rng.shuffle(stages)
+    nested = rng.random() < 0.3 and k >= 2
+    if nested:
+        # each stage launches the next one
+        for s in range(1, k):
+            fibers[s].insert(rng.randint(0, 1), ('launch', s + 1))
+        main.append(('launch', 1))
+    else:
+        for s in stages:
+            main.append(('launch', s))
+    seq = []
+    sent = recvd = 0
+    while sent < n or recvd < n:
+        if sent < n and (recvd >= sent or rng.random() < 0.6):
+            sent += 1
+            seq.append(('send', 0, sent))
+        elif recvd < n:
+            recvd += 1
+            seq.append(('recv', k))
+    if rng.random() < 0.15:
+        seq.append(('recv', k))          # one receive too many: a real deadlock
+    main += seq
+    for s in range(1, k + 1):
+        if rng.random() < 0.5 and not nested:
+            main.append(('join', s))
+    fibers[0] = main
+    return {'chans': chans, 'fibers': fibers, 'srsw': True}
+
+
+def gen_nested(rng):
+    """parents wait for values produced by children they launched, several levels deep"""
+    depth = rng.randint(2, 4)
+    chans = [rng.choice([0, 1, 1, 2]) for _ in range(depth)]
+    fibers = [[] for _ in range(depth + 1)]
+    for lvl in range(1, depth + 1):
+        ops = []
+        if lvl < depth:
+            ops.append(('launch', lvl + 1))
+            for _ in range(rng.randint(1, 2)):
+                ops.append(('recv', lvl))
+        for j in range(rng.randint(1, 2)):
+            ops.append(('send', lvl - 1, lvl * 1000 + j + 1))
+        if lvl < depth and rng.random() < 0.3:
+            ops.append(('recv', lvl))
+        fibers[lvl] = ops
+    # make sends/receives per channel balance most of the time
+    for c in range(depth):
+        sends = sum(1 for op in fibers[c + 1] if op[0] == 'send' and op[1] == c)
+        recvs = sum(1 for op in fibers[c] if op[0] == 'recv' and op[1] == c) if c > 0 else 0
+        if c == 0:
+            fibers[0] = [('launch', 1)] + [('recv', 0)] * (sends if rng.random() < 0.85 else sends + 1)
+    if rng.random() < 0.4:
+        fibers[0].append(('join', 1))
+    return {'chans': chans, 'fibers': fibers, 'srsw': True}
